@@ -6,7 +6,8 @@
 (*   C10 exactly-once completion   C11 retransmission bytes/bound/schedule *)
 (*   C12 routing by transaction id C15 Close                               *)
 (* Events (one JSON line each, "tr" = trace id, in causal order):          *)
-(*   cfg, start_call, start_ret, now, cb, cbexit, write, handler, fallback,*)
+(*   cfg, start_call, start_ret, do_waiting, handler_done, now, cb, cbexit, *)
+(*   write, handler, fallback,                                             *)
 (*   deliver, tick, close_call, close_ret, conn_close, exit, drift, end    *)
 (* The monitors are non-blocking: a violated requirement is recorded and   *)
 (* the trace goes on.  Details carry what a known-finding signature needs  *)
@@ -44,7 +45,7 @@ Fresh ==
   /\ closing' = FALSE      \* Close has been called
   /\ texit' = << >>        \* id -> line of the last exit of a timeout callback for that id
 
-Init == RegInit /\ l = 1 /\ cfg = [maxattempts |-> 7, rto |-> 1, closeconn |-> TRUE, fallback |-> TRUE]
+Init == RegInit /\ l = 1 /\ cfg = [maxattempts |-> 7, rto |-> 1, closeconn |-> TRUE, fallback |-> TRUE, free |-> FALSE]
         /\ st = << >> /\ ws = << >> /\ ended = {} /\ cbs = << >> /\ win = << >> /\ closeRet = FALSE /\ closeOK = 0
         /\ connCloses = 0 /\ lastDel = << >> /\ exited = {} /\ lastNow = << >> /\ pendGarbage = FALSE
         /\ cbSeen = {} /\ k4 = {} /\ k2 = {} /\ pend = << >> /\ closing = FALSE /\ texit = << >>
@@ -56,7 +57,7 @@ Del(f, k) == [x \in DOMAIN f \ {k} |-> f[x]]
 StartOfId(i) == IF i \in DOMAIN st /\ st[i].id = i THEN i      \* the drivers number start instances by their id
                 ELSE IF \E s \in DOMAIN st : st[s].id = i THEN CHOOSE s \in DOMAIN st : st[s].id = i ELSE 0
 InCb(p) == Len(Get(cbs, p, <<>>)) > 0
-InFlight(i) == StartOfId(i) # 0 /\ i \notin ended /\ st[StartOfId(i)].ret \in {"none", "nil"}
+InFlight(i) == StartOfId(i) # 0 /\ i \notin ended /\ st[StartOfId(i)].ret \in {"none", "nil", "wait"}
 WindowOpenFor(i) == \E p \in DOMAIN win : win[p].id = i
 \* a timeout callback for i is in progress in some goroutine (between the client-table delete and the write)
 InTimeoutCallback(i) == \E p \in DOMAIN cbs : Len(cbs[p]) > 0 /\ cbs[p][Len(cbs[p])].id = i /\ cbs[p][Len(cbs[p])].kind = "timeout"
@@ -64,6 +65,13 @@ InTimeoutCallback(i) == \E p \in DOMAIN cbs : Len(cbs[p]) > 0 /\ cbs[p][Len(cbs[
 \* the log shows the fallback call only after the other callback's exit (free-running goroutines)
 OverlappedTimeoutCallback(i, p) ==
   InTimeoutCallback(i) \/ (InCb(p) /\ i \in DOMAIN texit /\ texit[i] > cbs[p][Len(cbs[p])].line)
+\* K3's window proper: the timeout callback has taken the transaction out of the client table and has not yet put it
+\* back. The re-registration precedes the callback's agent.Start call (logged as "agstart"); in the gated replay the
+\* log order is the execution order, so a response that goes astray after that call is outside the window.
+\* Free-running (or drifted) goroutines log concurrently: there the whole overlapping callback counts.
+BeforeReRegistration(i) == \E p \in DOMAIN cbs : Len(cbs[p]) > 0 /\ cbs[p][Len(cbs[p])].id = i
+                                                  /\ cbs[p][Len(cbs[p])].kind = "timeout" /\ ~cbs[p][Len(cbs[p])].rereg
+InK3Window(i, p) == IF cfg.free \/ ~InOrder THEN OverlappedTimeoutCallback(i, p) ELSE BeforeReRegistration(i)
 Via(p) == IF InCb(p) THEN cbs[p][Len(cbs[p])].kind ELSE "start"
 
 N == cfg.maxattempts
@@ -75,19 +83,28 @@ OkWrites(i) == SelectSeq(Get(ws, i, <<>>), LAMBDA w : w.ok)
 
 Step(n, e) ==
   CASE e.k = "cfg" ->
-         /\ cfg' = [maxattempts |-> e.maxattempts, rto |-> e.rto, closeconn |-> e.closeconn, fallback |-> e.fallback]
+         /\ cfg' = [maxattempts |-> e.maxattempts, rto |-> e.rto, closeconn |-> e.closeconn, fallback |-> e.fallback,
+                    free |-> (Has(e, "free") /\ e.free)]
          /\ Fresh
     [] e.k = "start_call" ->
-         /\ st' = Set(st, e.s, [id |-> e.id, line |-> n, ret |-> "none", calls |-> 0, afterClose |-> closeRet, t0 |-> e.t, rto |-> cfg.rto])
+         /\ st' = Set(st, e.s, [id |-> e.id, line |-> n, ret |-> "none", do |-> (Has(e, "do") /\ e.do), fin |-> 0, calls |-> 0, afterClose |-> closeRet, t0 |-> e.t, rto |-> cfg.rto])
          /\ UNCHANGED << cfg, ws, ended, cbs, win, closeRet, closeOK, connCloses, lastDel, exited, lastNow, pendGarbage, cbSeen, k4, k2, pend, closing, texit >>
     [] e.k = "start_ret" ->
          LET s == st[e.s] IN
          /\ OnO("C10") => Require(~(e.err # "nil" /\ s.calls > 0), n, "handler-after-start-error",
                                  [s |-> e.s, err |-> e.err, order |-> "handler-before-return", k4 |-> st[e.s].id \in k4])
          /\ On("C15") => Require(s.afterClose => e.err = "closed", n, "start-after-close-not-refused", [s |-> e.s, err |-> e.err])
-         /\ On("C10") => Require((Has(e, "do") /\ e.do /\ e.err = "nil") => s.calls = 1, n, "do-returned-before-its-handler-ran",
-                                 [s |-> e.s, calls |-> s.calls])
+         \* Do returns once the invocation of its handler has finished (handler_done is logged when the handler returns)
+         /\ On("C10") => Require((s.do /\ e.err = "nil") => s.fin >= 1, n, "do-returned-before-its-handler-finished",
+                                 [s |-> e.s, calls |-> s.calls, finished |-> s.fin])
          /\ st' = Set(st, e.s, [s EXCEPT !.ret = e.err])
+         /\ UNCHANGED << cfg, ws, ended, cbs, win, closeRet, closeOK, connCloses, lastDel, exited, lastNow, pendGarbage, cbSeen, k4, k2, pend, closing, texit >>
+    [] e.k = "do_waiting" ->
+         \* replay only: the Do caller was seen blocked in callbackWaitHandler.wait, i.e. its Start returned nil
+         /\ st' = Set(st, e.s, [st[e.s] EXCEPT !.ret = "wait"])
+         /\ UNCHANGED << cfg, ws, ended, cbs, win, closeRet, closeOK, connCloses, lastDel, exited, lastNow, pendGarbage, cbSeen, k4, k2, pend, closing, texit >>
+    [] e.k = "handler_done" ->
+         /\ st' = Set(st, e.s, [st[e.s] EXCEPT !.fin = @ + 1])
          /\ UNCHANGED << cfg, ws, ended, cbs, win, closeRet, closeOK, connCloses, lastDel, exited, lastNow, pendGarbage, cbSeen, k4, k2, pend, closing, texit >>
     [] e.k = "setrto" ->
          \* Client.SetRTO: later Starts snapshot the new value (the snapshot is taken right after the clock reading)
@@ -112,9 +129,13 @@ Step(n, e) ==
                    lastreg == IF k = 0 THEN s.t0 ELSE rs[k].reg
                IN Require(e.t > lastreg + (k + 1) * s.rto, n, "timeout-event-before-deadline",
                           [id |-> e.id, at |-> e.t, transmission |-> k, registered_at |-> lastreg, rto |-> s.rto])
-         /\ cbs' = Set(cbs, e.p, Append(Get(cbs, e.p, <<>>), [kind |-> e.kind, id |-> e.id, line |-> n]))
+         /\ cbs' = Set(cbs, e.p, Append(Get(cbs, e.p, <<>>), [kind |-> e.kind, id |-> e.id, line |-> n, rereg |-> FALSE]))
          /\ cbSeen' = cbSeen \cup {e.id}
          /\ UNCHANGED << cfg, st, ws, ended, win, closeRet, closeOK, connCloses, lastDel, exited, lastNow, pendGarbage, k4, k2, pend, closing, texit >>
+    [] e.k = "agstart" ->
+         \* agent.Start called from inside a callback: the retransmission path has re-registered the transaction
+         /\ cbs' = IF InCb(e.p) THEN Set(cbs, e.p, [cbs[e.p] EXCEPT ![Len(cbs[e.p])] = [@ EXCEPT !.rereg = TRUE]]) ELSE cbs
+         /\ UNCHANGED << cfg, st, ws, ended, win, closeRet, closeOK, connCloses, lastDel, exited, lastNow, pendGarbage, cbSeen, k4, k2, pend, closing, texit >>
     [] e.k = "cbexit" ->
          /\ cbs' = IF InCb(e.p) THEN Set(cbs, e.p, SubSeq(cbs[e.p], 1, Len(cbs[e.p]) - 1)) ELSE cbs
          /\ win' = IF Len(Get(cbs, e.p, <<>>)) <= 1 THEN Del(win, e.p) ELSE win
@@ -156,7 +177,7 @@ Step(n, e) ==
          IN
          /\ On("C10") =>
               /\ Require(s.calls = 0, n, "handler-invoked-twice", [s |-> e.s, kind |-> e.kind])
-              /\ Require(~InOrder \/ s.ret \in {"none", "nil"}, n, "handler-after-start-error",
+              /\ Require(~InOrder \/ s.ret \in {"none", "nil", "wait"}, n, "handler-after-start-error",
                          [s |-> e.s, err |-> s.ret, kind |-> e.kind, order |-> "handler-after-return", k4 |-> i \in k4])
               /\ Require(e.kind \in {"msg", "timeout", "writeerr", "closed"}, n, "unexpected-completion-kind", [s |-> e.s, kind |-> e.kind, k4 |-> i \in k4])
          /\ (OnO("C11") /\ e.kind = "timeout") =>
@@ -175,7 +196,7 @@ Step(n, e) ==
     [] e.k = "fallback" ->
          /\ On("C12") =>
               /\ ((e.kind = "msg" /\ InOrder) => Require(~InFlight(e.id), n, "response-to-fallback-while-in-flight",
-                                             [id |-> e.id, in_retransmission_window |-> OverlappedTimeoutCallback(e.id, e.p), k4 |-> e.id \in k4]))
+                                             [id |-> e.id, in_retransmission_window |-> InK3Window(e.id, e.p), k4 |-> e.id \in k4]))
               \* (timeout / closed events of a transaction that reach the fallback handler are not messages: the
               \*  property is silent about them)
               /\ ((e.kind = "msg") => Require(\E d \in Get(lastDel, e.id, {}) : Trace[d].raw = e.msg, n, "message-is-not-the-received-datagram", [id |-> e.id]))
@@ -237,15 +258,19 @@ Step(n, e) ==
          /\ connCloses' = connCloses + 1
          /\ UNCHANGED << cfg, st, ws, ended, cbs, win, closeRet, closeOK, lastDel, exited, lastNow, pendGarbage, cbSeen, k4, k2, pend, closing, texit >>
     [] e.k = "exit" ->
+         \* the reader goroutine lives until Close: whatever it reads, it goes on reading
+         /\ On("C12") => Require(e.p # "RD" \/ closing, n, "reader-stopped-before-close", [p |-> e.p])
          /\ exited' = exited \cup {e.p}
          /\ UNCHANGED << cfg, st, ws, ended, cbs, win, closeRet, closeOK, connCloses, lastDel, lastNow, pendGarbage, cbSeen, k4, k2, pend, closing, texit >>
     [] e.k = "end" ->
          /\ On("C15") => Require(closing => closeOK <= 1, n, "close-result", [successful_closes |-> closeOK])
          \* quiescence: Close returned and every Start returned
-         /\ (On("C10") /\ closeRet /\ \A s \in DOMAIN st : st[s].ret # "none") =>
+         /\ (On("C10") /\ closeRet /\ \A s \in DOMAIN st : st[s].ret # "none") =>     \* ("wait": a Do whose Start returned nil)
               \A s \in DOMAIN st :
-                ((st[s].ret = "nil") => Require(st[s].calls = 1, n, "handler-never-invoked",
+                /\ ((st[s].ret \in {"nil", "wait"}) => Require(st[s].calls = 1, n, "handler-never-invoked",
                                                [s |-> s, calls |-> st[s].calls, closed |-> closeRet]))
+                /\ ((st[s].ret = "wait" /\ st[s].fin >= 1) => Require(FALSE, n, "do-did-not-return-after-its-handler",
+                                               [s |-> s, calls |-> st[s].calls, finished |-> st[s].fin]))
          /\ UNCHANGED vars_noL
     [] e.k = "drift" ->
          \* the behaviour could not be followed: from here on the goroutines run concurrently and only the
